@@ -406,6 +406,15 @@ func runC09(p *an.Prog, r *an.Run, tier string) {
 				}
 			}
 		})
+		// ... and the loop must get as far as the failing read: delivering a reply nobody waits for any more (the caller's
+		// deadline passed) must not block it, so the per-id reply channel has room for the reply (shared with C14)
+		if gpc := p.Method("jsonrpc2", "Remote", "getPendingChan"); gpc != nil {
+			if !replyChanBuffered(gpc) {
+				sbad = append(sbad, "the reply channel made by "+an.FuncName(gpc)+" is unbuffered: a late or unsolicited reply blocks the read loop for ever, Serve never sees the connection end and CloseRemote is never called for it")
+			}
+		} else {
+			sbad = append(sbad, "getPendingChan not found")
+		}
 		r.Check(len(sbad) == 0, "serve-returns", an.FuncName(sv), sv.Pos(), "Serve returns as soon as the codec fails", "%s", strings.Join(dedup(sbad), "; "))
 	} else {
 		r.Undec("serve-returns", "jsonrpc2.Remote.Serve", token.NoPos, "anchor not found")
